@@ -119,12 +119,19 @@ pub fn confined_under(p: &[u8], root: &[u8]) -> bool {
     if p.len() < root.len() {
         return false;
     }
-    let mut i = 0;
-    while i < root.len() {
-        if p[i] != root[i] {
-            return false;
-        }
-        i += 1;
+    // prefix compare without a loop (the unwind bound is global: a 13-iteration compare would force
+    // every loop of std::path::Components to be unrolled 14 times); roots used: "/c", "/c/api/ribbit"
+    let i = root.len();
+    let same = if i == 2 {
+        p[0] == root[0] && p[1] == root[1]
+    } else if i == 13 {
+        p[0] == root[0] && p[1] == root[1] && p[2] == root[2] && p[3] == root[3] && p[4] == root[4] && p[5] == root[5] && p[6] == root[6]
+            && p[7] == root[7] && p[8] == root[8] && p[9] == root[9] && p[10] == root[10] && p[11] == root[11] && p[12] == root[12]
+    } else {
+        false
+    };
+    if !same {
+        return false;
     }
     if p.len() == root.len() {
         return true;
@@ -185,12 +192,7 @@ fn alphabet(sel: u8) -> u8 {
 // the String's heap size symbolic (solver out of memory).  Callers pass ASCII only.
 fn mk_string<const L: usize>(prefix: &str, bytes: [u8; L]) -> String {
     let mut v: Vec<u8> = Vec::with_capacity(prefix.len() + L);
-    let p = prefix.as_bytes();
-    let mut i = 0;
-    while i < p.len() {
-        v.push(p[i]);
-        i += 1;
-    }
+    v.extend_from_slice(prefix.as_bytes()); // concrete-length memcpy, no loop
     let mut i = 0;
     while i < L {
         v.push(bytes[i]);
@@ -199,8 +201,22 @@ fn mk_string<const L: usize>(prefix: &str, bytes: [u8; L]) -> String {
     unsafe { String::from_utf8_unchecked(v) }
 }
 
-macro_rules! disk_path {
-    ($name:ident, $len:expr, $unwind:expr, $raw:expr) => {
+// The fixed get_file_path rebuilds the relative path component by component
+// (`components().filter_map(Normal).collect::<PathBuf>()`): with symbolic '/' positions every
+// PathBuf::push has a symbolic length (symbolic-size heap object: solver out of memory, measured at
+// 2 bytes).  The key SHAPE is therefore concrete per harness -- pattern byte '/' = separator,
+// 'c' = one symbolic character out of {'.', 'a', '\\'} -- and the characters stay symbolic, so "..",
+// ".", names and mixtures are all covered for each shape.
+fn shape_char(sel: u8) -> u8 {
+    match sel % 3 {
+        0 => b'.',
+        1 => b'a',
+        _ => b'\\',
+    }
+}
+
+macro_rules! disk_path_shape {
+    ($name:ident, $shape:expr, $prefix:expr, $root:expr, $unwind:expr, $raw:expr) => {
         #[kani::proof]
         #[kani::unwind($unwind)]
         #[kani::stub(std::fs::create_dir_all, create_dir_all_ok)]
@@ -208,81 +224,81 @@ macro_rules! disk_path {
         #[kani::stub(std::time::SystemTime::now, systemtime_zero)]
         #[kani::stub(std::hash::RandomState::new, crate::stubs::fixed_random_state)]
         fn $name() {
-            const L: usize = $len;
+            const SHAPE: &[u8] = $shape;
+            const L: usize = SHAPE.len();
+            const P: usize = $prefix.len();
             let sel: [u8; L] = kani::any();
             let sel2: [u8; L] = kani::any();
             let mut b1 = [0u8; L];
             let mut b2 = [0u8; L];
             let mut i = 0;
             while i < L {
-                b1[i] = alphabet(sel[i]);
-                b2[i] = alphabet(sel2[i]);
+                b1[i] = if SHAPE[i] == b'/' { b'/' } else { shape_char(sel[i]) };
+                b2[i] = if SHAPE[i] == b'/' { b'/' } else { shape_char(sel2[i]) };
                 i += 1;
             }
-            if !$raw {
-                kani::assume(well_formed(&b1));
-            }
             let cache = flat_cache();
-            let key = RawKey(mk_string::<L>("", b1));
-            let key2 = RawKey(mk_string::<L>("", b2));
+            let key = RawKey(mk_string::<L>($prefix, b1));
             let path = cache.verif_get_file_path(&key);
-            let path2 = cache.verif_get_file_path(&key2);
             let bytes = path.as_os_str().as_encoded_bytes();
-            let bytes2 = path2.as_os_str().as_encoded_bytes();
-            if $raw {
-                assert!(confined_under(bytes, ROOT.as_bytes()), "cache key escapes cache_dir (absolute key or '..' component)");
-                kani::cover!(b1[0] == b'/' || (L >= 2 && b1[0] == b'.' && b1[1] == b'.'), "absolute or parent-directory key");
-            } else {
-                assert!(confined_under(bytes, ROOT.as_bytes()), "well-formed key must map below cache_dir");
-                assert!(bytes.len() == ROOT.len() + 1 + L, "path must be cache_dir/<key>");
+            assert!(confined_under(bytes, $root.as_bytes()), "cache key escapes the cache directory (absolute key or '..' component)");
+            if !$raw && well_formed(&b1) {
+                // a key made of normal components maps to cache_dir/<key> verbatim ...
+                assert!(bytes.len() == ROOT.len() + 1 + P + L, "path must be cache_dir/<key>");
                 let q: usize = kani::any();
                 kani::assume(q < L);
-                assert!(bytes[ROOT.len() + 1 + q] == b1[q], "path must end with the key bytes");
-                // injectivity: equal paths only for equal keys
-                if well_formed(&b2) && bytes2.len() == bytes.len() {
-                    let mut same_path = true;
-                    let mut same_key = true;
-                    let mut t = 0;
-                    while t < L {
-                        same_key &= b1[t] == b2[t];
-                        t += 1;
+                assert!(bytes[ROOT.len() + 1 + P + q] == b1[q], "path must end with the key bytes");
+                // ... so two different well-formed keys get different files
+                if well_formed(&b2) {
+                    let key2 = RawKey(mk_string::<L>($prefix, b2));
+                    let path2 = cache.verif_get_file_path(&key2);
+                    let bytes2 = path2.as_os_str().as_encoded_bytes();
+                    assert!(bytes2.len() == bytes.len(), "same-shape well-formed keys give same-length paths");
+                    if b1[q] != b2[q] {
+                        assert!(bytes[ROOT.len() + 1 + P + q] != bytes2[ROOT.len() + 1 + P + q], "two different keys map to the same file");
                     }
-                    let mut t = 0;
-                    while t < ROOT.len() + 1 + L {
-                        same_path &= bytes[t] == bytes2[t];
-                        t += 1;
-                    }
-                    assert!(!same_path || same_key, "two different keys map to the same file");
+                    std::mem::forget(path2);
+                    std::mem::forget(key2);
                 }
-                kani::cover!(b1[0] == b'a' && b1[L - 1] == b'a', "plain key");
             }
+            kani::cover!(b1[0] != b'a', "key starts with a separator or dot or backslash");
             std::mem::forget(path);
-            std::mem::forget(path2);
             std::mem::forget(key);
-            std::mem::forget(key2);
             std::mem::forget(cache);
         }
     };
 }
 
 // @family prop=C20 tier=quick timeout=900 role=disk-path-wellformed
-// @bounds two cache keys of the fixed length in the name (1, 2, 4 bytes), every byte symbolic over {'.', '/', 'a', '\\'}, first key assumed well-formed (every component a normal name: non-empty, not "." / ".."); cache_dir "/c"; flat layout (use_subdirectories = false, as ProtocolCache configures it)
-// @encodes cascette_cache::disk_cache::DiskCache::get_file_path, cascette_cache::disk_cache::DiskCache::new
-// @assumes std::fs::create_dir_all stubbed to Ok; Instant::now / SystemTime::now stubbed (metrics start time); RandomState pinned; lexical normalisation (no symlinks); hashed-subdirectory layout not covered (format!)
-// @catches cache_dir dropped or replaced, key truncated / hashed / re-encoded so that two keys collide, separator missing
-disk_path!(c20_disk_path_wellformed_len1, 1, 12, false);
-disk_path!(c20_disk_path_wellformed_len2, 2, 12, false);
-disk_path!(c20_disk_path_wellformed_len4, 4, 14, false);
+// @bounds two cache keys of the concrete shape in the name (c, cc, csc = "c/c", ccsc = "cc/c"; c = one symbolic character out of {'.', 'a', '\\'}); cache_dir "/c"; flat layout (use_subdirectories = false, as ProtocolCache configures it): every key stays under cache_dir; a key whose components are all normal names maps to cache_dir/<key> verbatim and two different such keys of the same shape map to different files
+// @encodes cascette_cache::disk_cache::DiskCache::get_file_path, cascette_cache::disk_cache::DiskCache::confined_relative_path, cascette_cache::disk_cache::DiskCache::new
+// @assumes std::fs::create_dir_all stubbed to Ok; Instant::now / SystemTime::now stubbed (metrics start time); RandomState pinned; lexical normalisation (no symlinks); separator positions concrete per harness (symbolic positions make PathBuf::push sizes symbolic: solver out of memory); injectivity only within one shape; hashed-subdirectory layout not covered (format!)
+// @catches cache_dir dropped or replaced, key truncated / hashed / re-encoded so that two keys collide, separator missing, normal components dropped by the filter
+disk_path_shape!(c20_disk_path_wellformed_c, b"c", "", ROOT, 7, false);
+disk_path_shape!(c20_disk_path_wellformed_cc, b"cc", "", ROOT, 8, false);
+disk_path_shape!(c20_disk_path_wellformed_csc, b"c/c", "", ROOT, 9, false);
+disk_path_shape!(c20_disk_path_wellformed_ccsc, b"cc/c", "", ROOT, 10, false);
 // @end
 
 // @family prop=C20 tier=quick timeout=900 role=disk-path-raw-key
-// @bounds cache key of the fixed length in the name (1, 2, 4 bytes), every byte symbolic over {'.', '/', 'a', '\\'}, NOT filtered: the lexically normalised path stays under cache_dir for every key
-// @encodes cascette_cache::disk_cache::DiskCache::get_file_path
-// @assumes as c20_disk_path_wellformed_len1
+// @bounds cache key of the concrete shape in the name (s = "/", sc = "/c", cs = "c/", ccsc = "cc/c" (incl. "../a"), ccscc = "cc/cc" (incl. "../..", "a\\/.."), sccs = "/cc/"), characters symbolic over {'.', 'a', '\\'}, NOT filtered: the lexically normalised path stays under cache_dir for every key (regression harnesses for the fixed raw join)
+// @encodes cascette_cache::disk_cache::DiskCache::get_file_path, cascette_cache::disk_cache::DiskCache::confined_relative_path
+// @assumes as c20_disk_path_wellformed_c
 // @catches raw join of the key (absolute key replaces cache_dir, ".." leaves it), filter keeping ParentDir / RootDir components
-disk_path!(c20_kf_disk_path_raw_len1, 1, 12, true);
-disk_path!(c20_kf_disk_path_raw_len2, 2, 12, true);
-disk_path!(c20_kf_disk_path_raw_len4, 4, 14, true);
+disk_path_shape!(c20_kf_disk_path_raw_s, b"/", "", ROOT, 7, true);
+disk_path_shape!(c20_kf_disk_path_raw_sc, b"/c", "", ROOT, 8, true);
+disk_path_shape!(c20_kf_disk_path_raw_cs, b"c/", "", ROOT, 8, true);
+disk_path_shape!(c20_kf_disk_path_raw_ccsc, b"cc/c", "", ROOT, 10, true);
+disk_path_shape!(c20_kf_disk_path_raw_ccscc, b"cc/cc", "", ROOT, 11, true);
+disk_path_shape!(c20_kf_disk_path_raw_sccs, b"/cc/", "", ROOT, 10, true);
+// @end
+
+// @family prop=C20 tier=quick timeout=900 role=disk-path-ribbit-namespace
+// @bounds cache key "api/ribbit/" + endpoint of the concrete shape in the name (cc incl. "..", csc = "c/c"), characters symbolic over {'.', 'a', '\\'}, NOT filtered by validate_endpoint: the path stays under cache_dir (an unvalidated ".." may leave api/ribbit but never cache_dir)
+// @encodes cascette_cache::disk_cache::DiskCache::get_file_path
+// @assumes as c20_disk_path_wellformed_c
+disk_path_shape!(c20_disk_path_ribbit_cc, b"cc", "api/ribbit/", ROOT, 10, true);
+disk_path_shape!(c20_disk_path_ribbit_csc, b"c/c", "api/ribbit/", ROOT, 10, true);
 // @end
 
 // ---- (c) validate_endpoint ------------------------------------------------------------------------
@@ -290,10 +306,6 @@ macro_rules! endpoint_path {
     ($name:ident, $len:expr, $unwind:expr, $ascii:expr, $root:expr, $msg:expr) => {
         #[kani::proof]
         #[kani::unwind($unwind)]
-        #[kani::stub(std::fs::create_dir_all, create_dir_all_ok)]
-        #[kani::stub(std::time::Instant::now, instant_zero)]
-        #[kani::stub(std::time::SystemTime::now, systemtime_zero)]
-        #[kani::stub(std::hash::RandomState::new, crate::stubs::fixed_random_state)]
         #[kani::stub(std::fmt::format, crate::stubs::fmt_format_empty)]
         fn $name() {
             const L: usize = $len;
@@ -344,19 +356,13 @@ macro_rules! endpoint_path {
             assert!(accepted == ok, "validate_endpoint must accept exactly: whitelist characters, no leading '/', no '.' / '..' segment");
             kani::cover!(accepted, "accepted endpoint");
             if accepted {
-                // the cache key RibbitTactClient::query derives: "api/ribbit/<endpoint>"
-                let cache = flat_cache();
-                let key = RawKey(mk_string::<L>("api/ribbit/", b));
-                let path = cache.verif_get_file_path(&key);
-                assert!(confined_under(path.as_os_str().as_encoded_bytes(), $root.as_bytes()), $msg);
-                // independent of get_file_path's own filtering: even a naive join of the accepted
-                // endpoint stays inside the namespace
+                // the cache key RibbitTactClient::query derives is "api/ribbit/<endpoint>": even a plain
+                // join of it onto cache_dir must stay inside cache_dir/api/ribbit.  (DiskCache::get_file_path
+                // on such keys: c20_disk_path_ribbit_* / c20_disk_path_* -- with symbolic separator
+                // positions its PathBuf pushes have symbolic sizes.)
                 let naive = mk_string::<L>("/c/api/ribbit/", b);
-                assert!(confined_under(naive.as_bytes(), b"/c/api/ribbit"), "accepted endpoint would leave api/ribbit under a plain join");
+                assert!(confined_under(naive.as_bytes(), $root.as_bytes()), $msg);
                 std::mem::forget(naive);
-                std::mem::forget(path);
-                std::mem::forget(key);
-                std::mem::forget(cache);
             }
             std::mem::forget(ep);
         }
@@ -364,20 +370,20 @@ macro_rules! endpoint_path {
 }
 
 // @family prop=C20 tier=quick timeout=900 role=endpoint-confined
-// @bounds endpoint string of the fixed length in the name (1, 3, 5 bytes), every byte symbolic ASCII (0..=0x7f); accepted endpoints are turned into "api/ribbit/<endpoint>" and mapped by DiskCache::get_file_path (cache_dir "/c", flat layout); both that path and the plain join must stay inside /c/api/ribbit
-// @encodes cascette_protocol::client::validate_endpoint, cascette_cache::disk_cache::DiskCache::get_file_path
-// @assumes the key prefix "api/ribbit/" is concatenated by the harness (query() builds it with format! inside an async network path); fmt::format stubbed (error text); create_dir_all stubbed; non-ASCII endpoints not covered (Unicode tables)
+// @bounds endpoint string of the fixed length in the name (1, 3, 5 bytes), every byte symbolic ASCII (0..=0x7f); validate_endpoint must equal the oracle (whitelist, no leading '/', no '.' / '..' segment) and the plain join cache_dir/api/ribbit/<accepted endpoint> must stay lexically inside /c/api/ribbit
+// @encodes cascette_protocol::client::validate_endpoint
+// @assumes the key prefix "api/ribbit/" is concatenated by the harness (query() builds it with format! inside an async network path); fmt::format stubbed (error text); non-ASCII endpoints not covered (Unicode tables); DiskCache::get_file_path on the derived key is covered per shape by c20_disk_path_ribbit_* and c20_disk_path_*
 // @catches a character dropped from / added to the whitelist ('\\', ':', space, NUL, '%'), validation skipped for some position, leading '/' or '.' / '..' segments accepted again, accepted endpoints leaving cache_dir/api/ribbit
-endpoint_path!(c20_endpoint_confined_len1, 1, 20, true, "/c/api/ribbit", "accepted endpoint leaves cache_dir/api/ribbit");
-endpoint_path!(c20_endpoint_confined_len3, 3, 22, true, "/c/api/ribbit", "accepted endpoint leaves cache_dir/api/ribbit");
-endpoint_path!(c20_endpoint_confined_len5, 5, 24, true, "/c/api/ribbit", "accepted endpoint leaves cache_dir/api/ribbit");
+endpoint_path!(c20_endpoint_confined_len1, 1, 9, true, "/c/api/ribbit", "accepted endpoint leaves cache_dir/api/ribbit");
+endpoint_path!(c20_endpoint_confined_len3, 3, 9, true, "/c/api/ribbit", "accepted endpoint leaves cache_dir/api/ribbit");
+endpoint_path!(c20_endpoint_confined_len5, 5, 9, true, "/c/api/ribbit", "accepted endpoint leaves cache_dir/api/ribbit");
 // @end
 
 // @family prop=C20 tier=quick timeout=900 role=endpoint-traversal-regressions
 // @bounds endpoint of 2 bytes (ASCII symbolic; contains "..", "./", "/a") and endpoint of 8 bytes over {'.', '/', 'a', '-'} (contains "../../..", "a/../..", "/aaaaaaa"); same checks as c20_endpoint_confined_len1
-// @encodes cascette_protocol::client::validate_endpoint, cascette_cache::disk_cache::DiskCache::get_file_path
+// @encodes cascette_protocol::client::validate_endpoint
 // @assumes as c20_endpoint_confined_len1
 // @catches '..' / '.' segments or absolute endpoints passing validation again (former defects)
-endpoint_path!(c20_kf_endpoint_namespace_len2, 2, 22, true, "/c/api/ribbit", "accepted endpoint leaves cache_dir/api/ribbit");
-endpoint_path!(c20_kf_endpoint_escapes_len8, 8, 28, false, "/c/api/ribbit", "accepted endpoint leaves cache_dir/api/ribbit");
+endpoint_path!(c20_kf_endpoint_namespace_len2, 2, 9, true, "/c/api/ribbit", "accepted endpoint leaves cache_dir/api/ribbit");
+endpoint_path!(c20_kf_endpoint_escapes_len8, 8, 11, false, "/c/api/ribbit", "accepted endpoint leaves cache_dir/api/ribbit");
 // @end
